@@ -81,7 +81,7 @@ struct ElemProbe<E, true> {
 
 template <class V>
 void take_snap(const V &v, Snap &s) {
-  typedef typename VecInfo<V>::elem E;
+  typedef typename V::value_type E;
   s = Snap();
   s.size = static_cast<uintmax_t>(v.size());
   s.cap = static_cast<uintmax_t>(v.capacity());
